@@ -163,10 +163,12 @@ def is_f15(o, texts, spec):
 def check(case):
     spec = case['model']
     m = build_model(spec)
-    for src in case['sources']:
-        for gspec in src:
-            if interp.wellformed(interp.to_node(gspec['tree']), spec) is not None:
-                return []
+    wild = bool(case.get('wild'))
+    if not wild and not case.get('overinv'):
+        for src in case['sources']:
+            for gspec in src:
+                if interp.wellformed(interp.to_node(gspec['tree']), spec) is not None:
+                    return []
     d = tmpdir()
     texts = []
     ngraphs = 0
@@ -199,7 +201,15 @@ def check(case):
     if f:
         return f
     out = got[2]
-    if not o.get('triples'):
+    if wild and not o.get('triples'):
+        # arbitrary (also ill-formed) input: only the plumbing clauses; the normal-form clause where the first pass is clean
+        try:
+            gs = penman.loads(out, model=m)
+        except Exception:
+            gs = None
+        if gs is not None and len(gs) != ngraphs:
+            f.append(('one-output-graph-per-input-graph', '%s: %d in, %d out' % (lab, ngraphs, len(gs))))
+    elif not o.get('triples'):
         gs = penman.loads(out, model=m)
         if len(gs) != ngraphs:
             f.append(('one-output-graph-per-input-graph', '%s: %d in, %d out' % (lab, ngraphs, len(gs))))
@@ -261,6 +271,8 @@ def nontrivial(case):
 def classes(case):
     o = case['opts']
     out = ['model:' + case['model'].get('name', 'custom'), 'sources:%d' % len(case['sources']), 'stdin' if case.get('stdin') else 'files']
+    if case.get('wild'): out.append('wild-input')
+    if case.get('overinv'): out.append('over-inverted-roles')
     out += ['opt:' + k for k in ('canon', 're', 'de', 'ra', 'ib', 'check', 'triples', 'compact', 'mv') if o.get(k)]
     if o.get('reconf'): out.append('opt:reconfigure')
     if o.get('rearr'): out.append('opt:rearrange')
@@ -268,7 +280,7 @@ def classes(case):
     if case.get('subprocess'): out.append('subprocess-cross-check')
     try:
         texts = ['\n\n'.join(penman.format(Tree(interp.to_node(gs['tree'])), indent=None) for gs in src) + '\n' for src in case['sources']]
-        if is_f15(o, texts, case['model']):
+        if not case.get('wild') and is_f15(o, texts, case['model']):
             out.append('excluded:F15-signature')
     except Exception:
         pass
@@ -284,6 +296,9 @@ C20_CONSTS = ['-', '5', '1.5', '"str"', '"a b(c)"', 'sym', '+', 'imperative', '0
 @st.composite
 def _opts(draw):
     o = {}
+    if draw(st.integers(0, 3)) == 0:
+        # plain reformatting, the most common use of the command
+        return {'compact': draw(st.booleans()), 'indent': draw(st.sampled_from([None, 'no', '-1', '0', '2', '6']))}
     for k, _ in NORM_FLAGS:
         o[k] = draw(st.integers(0, 2)) == 0
     o['check'] = draw(st.integers(0, 4)) == 0
@@ -304,14 +319,44 @@ def _cases(draw):
     fwd = [r for r in C20_ROLES if R.is_canonical_inversion(r) and not R.inverted(r)]
     inv = {r: R.invert(r) for r in fwd if R.inverted(R.invert(r)) and R.is_canonical_inversion(R.invert(r))}
     nsrc = draw(st.sampled_from([1, 1, 1, 2, 3]))
+    tbl = build_table(spec)
     sources = []
     for _ in range(nsrc):
         gs = []
         for _ in range(draw(st.sampled_from([0, 1, 1, 2, 3]))):
-            gs.append({'tree': draw(trees.wf_trees(spec, max_nodes=5, role_pool=(fwd, inv), concepts=C20_CONCEPTS, consts=C20_CONSTS, emptyconcept=False)),
+            tj = draw(trees.wf_trees(spec, max_nodes=5, role_pool=(fwd, inv), concepts=C20_CONCEPTS, consts=C20_CONSTS, emptyconcept=False))
+            if tbl['reifications'] and draw(st.integers(0, 2)) == 0:
+                tj = trees.reify_in_tree(draw, tj, tbl, prob=(1, 3))
+            gs.append({'tree': tj,
                        'meta': draw(trees.metadata(max_keys=2)) if draw(st.booleans()) else {}})
         sources.append(gs)
-    return {'sources': sources, 'model': spec, 'opts': draw(_opts()), 'stdin': nsrc == 1 and draw(st.booleans()),
+    opts = draw(_opts())
+    overinv = False
+    if opts.get('canon') and draw(st.integers(0, 2)) == 0:
+        # roles with surplus pairs of inversions: --canonicalize-roles must bring them to a normal form in one pass
+        overinv = True
+        nkeys = sorted(tbl['normalizations'])
+        for src in sources:
+            for gsp in src:
+                brs = [b for b in gsp['tree'][1] if b[0] != '/']
+                if nkeys and brs and draw(st.booleans()):
+                    brs[0][0] = nkeys[draw(st.integers(0, len(nkeys) - 1))] + '-of-of'   # e.g. :mod-of-of-of
+        for src in sources:
+            for gsp in src:
+                stack = [gsp['tree']]
+                while stack:
+                    nd = stack.pop()
+                    for br in nd[1]:
+                        if br[0] != '/' and draw(st.integers(0, 2)) == 0:
+                            base, tilde, aln = br[0].partition('~')
+                            br[0] = base + '-of-of' * draw(st.integers(1, 2)) + tilde + aln
+                        if isinstance(br[1], list):
+                            stack.append(br[1])
+    wild = draw(st.integers(0, 5)) == 0
+    if wild:
+        overinv = False
+        sources = [[{'tree': draw(trees.any_trees(max_nodes=5, unicode=False)), 'meta': {}} for _ in range(draw(st.integers(1, 2)))] for _ in range(nsrc)]
+    return {'sources': sources, 'model': spec, 'opts': opts, 'stdin': nsrc == 1 and draw(st.booleans()), 'wild': wild, 'overinv': overinv,
             'in_indent': draw(st.sampled_from([-1, None, 2])), 'alt_indent': draw(st.sampled_from(['no', '0', '4', '-1'])),
             'subprocess': draw(st.integers(0, 49)) == 0}
 
